@@ -28,6 +28,11 @@ Definition RuntimeErr : exc := 5.
 Definition TypeErr : exc := 6.
 Definition StopAsyncIter : exc := 7.
 Definition ZeroDivErr : exc := 8.
+(* BaseException subclasses that are not Exception *)
+Definition KeyboardInt : exc := 9.
+Definition SystemExitErr : exc := 10.
+Definition CancelledErr : exc := 11.
+Definition UserSignal : exc := 12.
 Definition OtherErr : exc := 99.
 
 (* how a suspended (or fresh) body is resumed, and what it does next *)
